@@ -459,11 +459,21 @@ example : ∃ f, getMds ⟨{}, [], [], [], [], [0, 4, 0, 0]⟩ [] [] [] = .ok f 
   simp [getMds, usedSorted, addEntries, liftRiff, Riff.addChunk, Riff.mk3, Riff.mk2, Riff.isList, Riff.TYPE_RIFF,
     Riff.TYPE_LIST, bind, Except.bind, pure, Except.pure]
 
-/-- The full statement of the two remaining clauses (decided per case by `Spec/MdsResolve.checkFile`
-on the real file, not proved): for every successful export, the reader-side check — every
-INS/PCM/PEG/MTAB/PAT/drum-note operand of every reachable stream resolves to exactly one entry
-holding what the song named, no slot is unused, ids are injective, streams lie back to back —
-accepts the file. -/
+/-- the hypotheses of the `construct`-level theorems are satisfiable (a song whose only track is
+not a channel: the kernel does not unfold the mutually recursive writer, so songs with channel
+tracks are exercised by the correspondence runs — every accepted generated song is an instance) -/
+example : PlatformClean {} ∧ ∃ b, construct { tracks := [(100, [⟨ev_NOTE, 40, 2, 2⟩])] } {} (some "7") = .ok b :=
+  ⟨by intro k evs h; simp at h, _, rfl⟩
+
+example : ∃ ids : List Nat, ids.Pairwise (· < ·) ∧ ids = [0, 6, 100] := ⟨_, by decide, rfl⟩
+
+/-- The full statement, phrased with the reader-side check on the bytes of the file (decided per
+case by `Spec/MdsResolve.checkFile` on the REAL file).  What is proved instead: the same facts on
+the converter's event lists and the exported `seq ` / `dblk` (`C09_index_resolves`,
+`C09_data_resolves`, `C09_nothing_unused`, `C09_ids_injective`, `C09_track_table_exact`,
+`C09_slot_count`); not proved: that `checkFile`'s byte-level decoder (`decodeStream`, `namedOf`)
+reads exactly these operands back out of the `convertTrackChk` bytes (the codec's instruction
+boundaries, C03), and the drum-note / zero-length-note accounting of `namedOf`. -/
 def C09_full_statement : Prop :=
   ∀ (inp : Input) (o : Output), exportMds MdsData.Arith.float inp = .ok o →
     ∀ d, readSong MdsData.Arith.float inp.files inp.tags = .ok d →
